@@ -209,6 +209,15 @@ def run(ctx):
         cov["per_config"][cfg] = {"status": r["status"], "expected": "violation"}
         if r["status"] != "violation":
             ctx.inconclusive.append("wrong variant %s not refuted" % cfg)
+    # the hooks directory as state: unusable / repaired while the agent runs (HooksDir.tla, bound by the dirbad-* scenarios)
+    res = ctx.run_tlc("HooksDir.tla", "MC_HooksDir_code.cfg", workers=16, timeout=900, heap="8g")
+    ctx.tlc_must_pass(res, "MC_HooksDir_code.cfg")
+    cov["states"] += res["distinct"]; cov["transitions"] += res["generated"]
+    cov["per_config"]["MC_HooksDir_code.cfg"] = {"distinct": res["distinct"], "status": res["status"]}
+    r = ctx.run_tlc("HooksDir.tla", "MC_HooksDir_bad_armonlyifran.cfg", workers=4, timeout=300)
+    cov["per_config"]["MC_HooksDir_bad_armonlyifran.cfg"] = {"status": r["status"], "expected": "violation"}
+    if r["status"] != "violation":
+        ctx.inconclusive.append("wrong variant MC_HooksDir_bad_armonlyifran.cfg not refuted")
     hf = ctx.run_tlc("HookFiles.tla", "MC_HookFiles.cfg", workers=1, timeout=300)
     ctx.tlc_must_pass(hf, "MC_HookFiles.cfg")
     scs = scenarios(ctx.seed, 30 if not thorough else 150)
